@@ -425,7 +425,7 @@ past its allocation. -/
 example :
     let scan : Nat → ScanRes := fun k => if k = 0 then { marks := [1], time := 480 } else { marks := [], time := -1 }
     (finish scan (exRaw [0, 0xff, 0xff] 3)).toOption.map (fun m => (m.numSeq, m.seqCtl.take 3)) = some (1, [0, 0, 0xff])
-    ∧ ((seqLoop scan 3 4 { ctl := applyScan 3 0 0 ctlInit (scan 0), seq := 1, eps := [0], times := [480],
+    ∧ ((seqLoop scan 3 4 { ctl := applyScan 3 0 0 ctlInit (firstScan scan 3), seq := 1, eps := [0], times := [480],
                            calls := 1 }).ctl.take 3 = [0, 0, 1]) := by
   decide +kernel
 
